@@ -721,8 +721,9 @@ def oracle(case, impl):
         return None
     cmd, _, argv = decode(case)
     if any("ignore_errors" in c["settings"] for c in all_cmds(cmd)):
-        # an Ok under ignore_errors may be a swallowed error (partial command-line entries), but the
-        # environment and default phases still run, in that order, at every level that was reached
+        # an Ok under ignore_errors may be a swallowed error (partial command-line entries), but at every level that
+        # was reached the occurrence still being collected is stored first, then the environment phase and the
+        # defaults phase run, in that order (Parser::get_matches_with, error branch; C06_ignore_errors_pending_flushed)
         return check_levels_ignore_errors(cmd, argv, p["m"])
     return check_levels(cmd, argv, p["m"], present)
 
@@ -812,7 +813,7 @@ def check_levels_ignore_errors(cmd, argv, m):
             e = by_id.get(a["id"])
             if e is not None and e["src"] == "default":
                 return ("level %d (%s): %s reports DefaultValue although its environment variable is set (%r) "
-                        "[ignore_errors: the environment phase still runs before the defaults]"
+                        "[ignore_errors: the occurrence still being collected is stored first, then the environment phase runs, then the defaults]"
                         % (k, c["name"].decode(), a["id"].decode(), a["env"][1]))
     return None
 
